@@ -410,9 +410,9 @@ def correspondence(ctx):
     hi = ctx.scale(12, 22)
     if ctx.widen:
         hi = max(hi, 16)
-    n_model = ctx.scale(70, 500) * (2 if ctx.widen else 1)
-    n_fft = ctx.scale(36, 200)
-    n_pred = ctx.scale(140, 1500) * (2 if ctx.widen else 1)
+    n_model = ctx.scale(150, 500) * (2 if ctx.widen else 1)
+    n_fft = ctx.scale(60, 200)
+    n_pred = ctx.scale(400, 1500) * (2 if ctx.widen else 1)
     n_scal = ctx.scale(200, 2000)
 
     # ---------------- requests for the model
